@@ -1,10 +1,12 @@
 (* Executable model of lib/polib4us.py polib_unescape (the replacement of polib.unescape).
 
-     _escapes_re = ( \\ (?: [ntbrfva] | \\ | DQUOTE | [0-9]{1,3} | x[0-9a-fA-F]{1,2} ) )+
+     _escapes_re = ( \\ (?: [ntbrfva] | \\ | DQUOTE | [0-9]{1,3} | x[0-9a-fA-F]+ ) )+
+     _long_x_escape_re = \\x [0-9a-fA-F]* ([0-9a-fA-F]{2})
      _short_x_escape_re = \\x ([0-9a-fA-F]) (?= \\ | $ )
      def polib_unescape(s):  return _escapes_re.sub(unescape, s)
      def unescape(match):
-         s = _short_x_escape_re.sub(r'\\x0\1', match.group())
+         s = _long_x_escape_re.sub(r'\\x\1', match.group())
+         s = _short_x_escape_re.sub(r'\\x0\1', s)
          result = ast.literal_eval(the bytes literal b'...' with s between the quotes)
          try: return result.decode('ASCII')
          except UnicodeDecodeError: return result.decode(<encoding of the PO file>)
@@ -15,7 +17,10 @@
    octal escape above \377 (defect D14).
 
    Every scanner walks its input one character at a time (structural recursion); a [skip] counter
-   drops the characters already consumed by a look-ahead. *)
+   drops the characters already consumed by a look-ahead.
+
+   (This is the code after the repair of D29: like gettext and C, a hexadecimal escape takes every hex
+   digit that follows and the value is reduced to its low 8 bits.) *)
 From Coq Require Import List NArith Bool.
 From I18n Require Import Lib.Outcome.
 Import ListNotations.
@@ -40,8 +45,15 @@ Definition simple_escape (c : N) : option N :=
 Definition nth_is (p : N -> bool) (s : list N) (i : nat) : bool :=
   match nth_error s i with Some c => p c | None => false end.
 
+(* [0-9a-fA-F]* at the head of [s], greedy: the number of hex digits *)
+Fixpoint hex_span (s : list N) : nat :=
+  match s with
+  | c :: r => if is_hex c then S (hex_span r) else O
+  | [] => O
+  end.
+
 (* one alternative of _escapes_re at the head of [s]; the length of the match (backslash included).
-   Alternation order and greedy counted repetition; nothing follows the group inside the [+], so
+   Alternation order and greedy repetition; nothing follows the group inside the [+], so
    the first (greedy) success is the match: no backtracking changes it. *)
 Definition escape_len (s : list N) : option nat :=
   if nth_is (N.eqb BSL) s 0 then
@@ -53,12 +65,32 @@ Definition escape_len (s : list N) : option nat :=
         if is_dec e then
           if nth_is is_dec s 2 then (if nth_is is_dec s 3 then Some 4%nat else Some 3%nat) else Some 2%nat
         else if N.eqb e LX then
-          if nth_is is_hex s 2 then (if nth_is is_hex s 3 then Some 4%nat else Some 3%nat) else None
+          match hex_span (skipn 2 s) with O => None | S n => Some (S (S (S n))) end
         else None
       end
     | None => None
     end
   else None.
+
+(* _long_x_escape_re.sub(r'\\x\1', run): backslash x and n >= 2 hex digits (the star takes them all and
+   gives two back to the group) become backslash x and the last two digits *)
+Definition long_x_at (s : list N) : option nat :=     (* the number of hex digits *)
+  if nth_is (N.eqb BSL) s 0 && nth_is (N.eqb LX) s 1 then
+    match hex_span (skipn 2 s) with S (S n) => Some (S (S n)) | _ => None end
+  else None.
+
+Fixpoint fixup_long (s : list N) (skip : nat) : list N :=
+  match s with
+  | [] => []
+  | c :: r =>
+    match skip with
+    | S k => fixup_long r k
+    | O => match long_x_at s with
+           | Some n => BSL :: LX :: firstn 2 (skipn n s) ++ fixup_long r (S n)
+           | None => c :: fixup_long r 0
+           end
+    end
+  end.
 
 (* _short_x_escape_re.sub(r'\\x0\1', run) *)
 Definition short_x_at (s : list N) : bool :=
@@ -130,7 +162,7 @@ Definition lift_crash {A} (x : outcome A unit) : outcome A unesc_err :=
 
 (* the callback [unescape(match)] *)
 Definition unescape_run (dec : list N -> option (list N)) (run : list N) : outcome (list N * bool) unesc_err :=
-  do x <- lift_crash (bytes_eval (fixup run 0) 0);
+  do x <- lift_crash (bytes_eval (fixup (fixup_long run 0) 0) 0);
   do t <- decode_run dec (fst x);
   Ok (t, snd x).
 
